@@ -306,6 +306,6 @@ impl Walk {
 pub fn reply_pool(rng: &mut Rng) -> Vec<String> {
     let n = rng.range(1, 4);
     (0..n)
-        .map(|_| rng.pick(&["5", "0", "hello", "", "1,2", "3 : 4", "\"q\"", " 7 ", "-2.5", "x", "1e3", "é", "12abc", "\"a\" ,", " "]).to_string())
+        .map(|_| rng.pick(&["5", "0", "hello", "", "1,2", "3 : 4", "\"q\"", " 7 ", "-2.5", "x", "1e3", "é", "12abc", "\"a\" ,", " ", "\"HELLO ", "  \"sp  ", "\"open\t", "x \u{a0}", "7\u{3000}"]).to_string())
         .collect()
 }
